@@ -37,11 +37,13 @@ struct SchedReader<'a> {
     /// mismatch as a replay divergence (used where the schedule is a fixed
     /// list that was not derived from a previous run)
     lenient: bool,
+    /// the kind of the injected read error
+    fault_kind: io::ErrorKind,
 }
 
 impl<'a> SchedReader<'a> {
     fn new(data: &'a [u8], sched: &'a [usize], fault_at: Option<usize>) -> SchedReader<'a> {
-        SchedReader { data, pos: 0, sched, idx: 0, log: vec![], fault_at, eof_reported: false, empty_buf_call: false, cuts: vec![], lenient: false }
+        SchedReader { data, pos: 0, sched, idx: 0, log: vec![], fault_at, eof_reported: false, empty_buf_call: false, cuts: vec![], lenient: false, fault_kind: io::ErrorKind::Other }
     }
 }
 
@@ -53,7 +55,7 @@ impl<'a> Read for SchedReader<'a> {
         if Some(self.idx) == self.fault_at {
             self.idx += 1;
             self.log.push((0, 0));
-            return Err(io::Error::new(io::ErrorKind::Other, "injected read fault"));
+            return Err(io::Error::new(self.fault_kind, "injected read fault"));
         }
         let rem = self.data.len() - self.pos;
         let maxr = rem.min(buf.len());
@@ -416,9 +418,18 @@ impl<'a> Item<'a> {
         let reptab = &self.reps[0];
         let exp_out = self.spec.splice(stream, exp, reptab);
         let nreads = sched_full.len();
-        for k in 0..nreads {
+        // every error kind of the reader must surface (std's own retry loops
+        // treat Interrupted specially; the stream search must not)
+        let kinds: &[io::ErrorKind] = if rep.thorough() {
+            &[io::ErrorKind::Other, io::ErrorKind::Interrupted, io::ErrorKind::WouldBlock, io::ErrorKind::UnexpectedEof, io::ErrorKind::TimedOut]
+        } else {
+            &[io::ErrorKind::Other, io::ErrorKind::Interrupted]
+        };
+        for kk in 0..nreads * kinds.len() {
+            let (k, fkind) = (kk / kinds.len(), kinds[kk % kinds.len()]);
             // reader fault during stream_find_iter
             let mut rdr = SchedReader::new(stream, sched_full, Some(k));
+            rdr.fault_kind = fkind;
             let r = catch_unwind(AssertUnwindSafe(|| {
                 let mut got: Vec<Result<M, String>> = vec![];
                 let mut it = self.ac.try_stream_find_iter(&mut rdr).map_err(|e| e.to_string())?;
@@ -457,7 +468,7 @@ impl<'a> Item<'a> {
             }));
             st.add("executions", 1);
             st.add("fault_points", 1);
-            let case = || self.case("rfault", stream, sched_full).set("fault_at", J::i(k as i64));
+            let case = || self.case("rfault", stream, sched_full).set("fault_at", J::i(k as i64)).set("fault_kind", J::s(format!("{:?}", fkind)));
             match r {
                 Err(p) => {
                     let msg = crate::aut::panic_msg(&p);
@@ -497,11 +508,12 @@ impl<'a> Item<'a> {
             }
             // reader fault during replacement
             let mut rdr = SchedReader::new(stream, sched_full, Some(k));
+            rdr.fault_kind = fkind;
             let mut w = SchedWriter { out: vec![], accept: usize::MAX, per_call: usize::MAX, failed: false, limit: 8 * stream.len() + 64 };
             let r = catch_unwind(AssertUnwindSafe(|| self.ac.try_stream_replace_all(&mut rdr, &mut w, reptab)));
             st.add("executions", 1);
             st.add("fault_points", 1);
-            let case = || self.case("rfault_replace", stream, sched_full).set("fault_at", J::i(k as i64));
+            let case = || self.case("rfault_replace", stream, sched_full).set("fault_at", J::i(k as i64)).set("fault_kind", J::s(format!("{:?}", fkind)));
             match r {
                 Err(p) => self.viol(rep, "fault-panic", case(), format!("panic with read fault at call {} in replace: {}", k, crate::aut::panic_msg(&p))),
                 Ok(res) => {
